@@ -685,7 +685,21 @@ fn main() {
         rep.cases += 1;
         // (if the code under test takes the process down, the driver reads here which schedule did it)
         let _ = std::fs::write(format!("{}.cur", &args[3]), ln.to_string());
-        let (mism, trace, atrace) = run_case(&cfg, case, ln);
+        // a panic of the channel on the driver's own thread (dropping the last Sender, sampling the
+        // metrics: e.g. a poisoned lock) is an observation like a panic on any other caller's thread
+        let (mism, trace, atrace) = match std::panic::catch_unwind(std::panic::AssertUnwindSafe(|| run_case(&cfg, case, ln))) {
+            Ok(r) => r,
+            Err(e) => {
+                let msg = e.downcast_ref::<String>().cloned().or_else(|| e.downcast_ref::<&str>().map(|s| s.to_string())).unwrap_or_default();
+                emit_batcher::verif::install(None);
+                let cap = cfg["cap"].as_u64().unwrap_or(1);
+                (
+                    vec![Mismatch { class: "prop", step: 0, what: format!("the channel panicked on the driver's thread (drop of the Sender / metrics sample): {msg}") }],
+                    json!([]),
+                    vec![json!({"ev": "Reset", "cap": cap}), json!({"ev": "CallerPanicked", "op": "send", "where": "driver", "msg": msg})],
+                )
+            }
+        };
         let divergent = !mism.is_empty();
         let hang = mism.iter().any(|m| m.what.contains("(hang)"));
         if hang {
